@@ -141,6 +141,13 @@ def templates(tier, seed):
         {'mnemonic': 'shl', 'text': 'shl v1', 'uses': [{'set': 'shift', 'id': 's', 'val': V('v1')}]})
     add('t5:numeric-enum-arg', isa(operand_sets=osets, instructions=ins, consts={'v1': (-2, 300)}),
         {'mnemonic': 'scl', 'text': 'scl v1 + 1', 'uses': [{'set': 'scale', 'id': 's', 'val': ('+', V('v1'), ('c', 1))}]})
+    # the enumeration is looked up with the value of the whole expression
+    add('t5:numeric-enum-code:product', isa(operand_sets=osets, instructions=ins, consts={'v1': (-2, 10)}),
+        {'mnemonic': 'shl', 'text': 'shl v1*2', 'uses': [{'set': 'shift', 'id': 's', 'val': ('*', V('v1'), ('c', 2))}]})
+    add('t5:numeric-enum-code:mask', isa(operand_sets=osets, instructions=ins, consts={'v1': (0, 40)}),
+        {'mnemonic': 'shl', 'text': 'shl v1 & 12', 'uses': [{'set': 'shift', 'id': 's', 'val': ('&', V('v1'), ('c', 12))}]})
+    add('t5:numeric-enum-arg:shift', isa(operand_sets=osets, instructions=ins, consts={'v1': (0, 20)}),
+        {'mnemonic': 'scl', 'text': 'scl v1 << 4', 'uses': [{'set': 'scale', 'id': 's', 'val': ('<<', V('v1'), ('c', 4))}]})
     add('t5:numeric-bytecode', isa(operand_sets=osets, instructions=ins, consts={'v1': (-6, 12)}),
         {'mnemonic': 'bset', 'text': 'bset v1', 'uses': [{'set': 'bit', 'id': 'b', 'val': V('v1')}]})
 
